@@ -829,8 +829,15 @@ def strict(R):
                 recv_fresh = isinstance(c.func, ast.Attribute) and isinstance(c.func.value, ast.Call) and \
                     any(t.kind == 'ctor' and t.cls == VAL for t in R.types.call_targets(c.func.value, ctx))
                 arg_ok = c.args and (U(c.args[0]) in src or (isinstance(c.args[0], ast.Name) and c.args[0].id in src))
-                if recv_fresh and arg_ok and isinstance(n.ast, ast.Assign) and isinstance(n.ast.targets[0], ast.Tuple):
-                    v0 = n.ast.targets[0].elts[0]
+                v0 = None
+                if recv_fresh and arg_ok and isinstance(n.ast, ast.Assign):
+                    if isinstance(n.ast.targets[0], ast.Tuple) and n.ast.value is c:
+                        v0 = n.ast.targets[0].elts[0]              # valid, _, _, _ = V().validate(b)
+                    elif isinstance(n.ast.targets[0], ast.Name) and isinstance(n.ast.value, ast.Subscript) \
+                            and n.ast.value.value is c and isinstance(n.ast.value.slice, ast.Constant) \
+                            and n.ast.value.slice.value == 0:
+                        v0 = n.ast.targets[0]                      # valid = V().validate(b)[0]
+                if v0 is not None:
                     for rn in g.live_nodes():
                         if rn.kind == 'stmt' and isinstance(rn.ast, ast.Raise):
                             gs = guards_of(g, rn)
